@@ -471,6 +471,11 @@ def _append_loop(eng, s, fr, seqv):
     ast.fix_missing_locations(gen)
     val = eng.models.comprehension_over(eng, gen, fr, "gen", seqv)
     eng.models.LIST_METHODS["extend"](eng, lst, [val], {})
+    # the loop WAS the statement `L.extend(...)`: ghost code attached to that statement (keyed by its text) runs as it would after it
+    synth = ast.Expr(value=ast.Call(func=ast.Attribute(value=ast.Name(id=lname, ctx=ast.Load()), attr="extend", ctx=ast.Load()), args=[gen], keywords=[]))
+    ast.copy_location(synth, s)
+    ast.fix_missing_locations(synth)
+    eng.ghost_after_statement(synth, fr)
     return True
 
 
